@@ -567,3 +567,35 @@ def scan_width_rule(chk, cid, prog, cfgname, units_prefix=('SRC/', 'EXAMPLE/', '
     if n < 16:
         raise AnalysisBroken('%s: only %d string conversions found in scanf-family calls (floor 16)' % (cid, n))
     return n
+
+
+def precision_purity_rule(chk, cid, prog, cfgname):
+    """The double-precision readers (dread*, zread*) must carry every value of the file in double precision from the conversion to the store:
+    a `float` temporary (the single-precision reader is the template the others are copied from) rounds the value to 24 bits on the way -
+    the matrix is still well-formed and every residual test passes, but it is not the matrix in the file.  No local or parameter of a
+    d/z reader unit may have a single-precision floating type."""
+    from ..run import AnalysisBroken
+    chk.clause(cid, 'double-precision readers hold file values in double precision only')
+    n = 0
+    for f in prog.all_funcs():
+        m = re.match(r'^SRC/([dz])read(hb|rb|MM|triple)\.c$', f.unit)
+        if not m:
+            continue
+        chk.saw(unit=f.unit, func=f.unit + ':' + f.name)
+        decls = [(v.a.get('name'), v.t or '', v) for v in f.locals.values()] + [(nm, t or '', None) for (nm, i, t) in f.params]
+        fl = [(nm, t, v) for (nm, t, v) in decls if re.search(r'\b(double|float|doublecomplex|singlecomplex)\b', t)]
+        bad = [(nm, t, v) for (nm, t, v) in fl if re.search(r'\b(float|singlecomplex)\b', t)]
+        n += len(fl)
+        if not fl:
+            continue
+        inst = '%s:%s:double-only' % (f.unit, f.name)
+        if not bad:
+            chk.ok(cid, inst, sample='%d floating declarations, all double' % len(fl), nontrivial=True)
+        else:
+            nm, t, v = bad[0]
+            chk.violate(cid, inst, '%s:%d' % (f.unit, (v.line if v is not None else f.line) or f.line), f.name,
+                        '`%s %s` in the double-precision reader %s: a value parked in it is rounded to single precision before it is stored '
+                        '(the returned matrix differs from the file in the 8th digit)' % (t, nm, f.name), cfgname=cfgname)
+    if n < 12:
+        raise AnalysisBroken('%s: only %d floating declarations found in the d/z reader units (floor 12)' % (cid, n))
+    return n
